@@ -219,19 +219,35 @@ def check(ctx):
                     c.where(), "include pattern = canonical(including file).parent + pattern", ["config::get_cnf_path", "relative-to-includer"])
 
     R5 = ctx.rule("R5", "unresolved endpoint / rate limit / hook / group / account and duplicate certificate ids are errors that reach MainEventLoop::new's caller")
-    for key, what in ((C + "::do_get_endpoint", "unknown endpoint"), (CFG + "::get_rate_limit", "unknown rate limit"), (CFG + "::do_get_hook", "unknown hook or group")):
+    from .hook_table import EXPECT_ERR, evaluated, hook_table, resolver
+    ht = hook_table(prog)
+    RES = resolver(prog).key
+    hook_eval = evaluated(ht)
+    if hook_eval:
+        hb_ = prog.must_body(RES)
+        for nm, why in sorted(EXPECT_ERR.items()):
+            if why != "unknown":
+                continue
+            got = ht.get(nm)
+            ctx.require(R5, got is not None and got[0] == "Err", "%s:%s" % (hb_.file, hb_.line),
+                        "%s (evaluated on the sample configuration: %s)" % ("an unknown hook name is an error" if nm == "zz" else "an unresolved name inside a group fails the whole lookup", got),
+                        [CFG + "::do_get_hook", "not-found-error" if nm == "zz" else "nested-error-dropped"])
+    for key, what in ((C + "::do_get_endpoint", "unknown endpoint"), (CFG + "::get_rate_limit", "unknown rate limit"), (RES, "unknown hook or group")):
         b = prog.must_body(key)
+        if hook_eval and key == RES:
+            continue
         nl = name_lookup(prog, key)
         ctx.require(R5, nl["good"], "%s:%s" % (b.file, b.line), "%s: Ok only after a name matched, otherwise Err (%s; shape %s)" % (key.rsplit("::", 1)[1], what, nl["shape"]), [key, "not-found-error"])
     # the recursive expansion of a group keeps every failure: each do_get_hook call inside do_get_hook is tested and its error edge
     # cannot reach Ok; inside a closure its Result must be handed to an error-preserving adaptor (map/try_*), never to
     # flat_map/filter_map/flatten/ok(), which iterate a Result as "zero or one item" and drop the error
     from .guards import body_family, closure_users
-    gh = prog.must_body(CFG + "::do_get_hook")
+    gh = prog.must_body(RES)
     okg, errg, fwdg = result_return_kinds(gh)
-    rec = [(fb, c) for fb in body_family(prog, CFG + "::do_get_hook") for c in fb.calls_to(CFG + "::do_get_hook")]
-    ctx.floor(R5, "recursive do_get_hook calls (group expansion)", len(rec), 1)
-    for fb, c in rec:
+    rec = [(fb, c) for fb in body_family(prog, RES) for c in fb.calls_to(RES)]
+    if not hook_eval:
+        ctx.floor(R5, "recursive do_get_hook calls (group expansion)", len(rec), 1)
+    for fb, c in ([] if hook_eval else rec):
         if fb is gh:
             errs = [tg for t in try_edges(gh, [c.dest["l"]]) for tg in t["err"]]
             good = bool(errs) and all(not (set(okg) & gh.reachable([e])) for e in errs)
